@@ -224,3 +224,29 @@ def pred_fmt(p):
     if k == "atom":
         return ("" if p[2] else "not ") + fmt(p[1])
     return repr(p)
+
+
+# ---------------------------------------------------------------------------- rational functions
+def ratpoly(t, atomize=None):
+    """(numerator, denominator) polynomials of a scalar term built with + - * / and constants"""
+    if isinstance(t, tuple) and t and t[0] == "binop" and t[1] in ("+", "-", "*", "/"):
+        (n1, d1), (n2, d2) = ratpoly(t[2], atomize), ratpoly(t[3], atomize)
+        if t[1] == "*":
+            return pmul(n1, n2), pmul(d1, d2)
+        if t[1] == "/":
+            return pmul(n1, d2), pmul(d1, n2)
+        s = 1 if t[1] == "+" else -1
+        return padd(pmul(n1, d2), pmul(n2, d1), s), pmul(d1, d2)
+    if isinstance(t, tuple) and t and t[0] == "unop" and t[1] == "neg":
+        n, d = ratpoly(t[2], atomize)
+        return {m: -c for m, c in n.items()}, d
+    if isinstance(t, tuple) and t and t[0] == "default":
+        return ratpoly(t[2], atomize)
+    if isinstance(t, tuple) and t and t[0] == "ext" and t[1] in TRANSPARENT and len(t[2]) == 1 and t[1] == "float":
+        return ratpoly(t[2][0], atomize)
+    return poly(t, atomize), pconst(1)
+
+
+def rat_equal(a, b):
+    (n1, d1), (n2, d2) = a, b
+    return pkey(pmul(n1, d2)) == pkey(pmul(n2, d1))
